@@ -6,6 +6,7 @@ value alphabet, integer position arrays, computation time, processor name, date,
 kind (both orders).  All specs within k deviations are dumped by the real writer and parsed by the real reader.
 """
 import contextlib
+import os
 import re
 
 from mc.core import Result
@@ -81,7 +82,10 @@ def menu_for(kind, tier, full_values=True):
         m.append(("ct", f"ct={ct[1]!r}:{ct[0]}", lambda s, ct=ct: s.__setitem__("ct", solspec.enc(ct[1], ct[0]))))
     for pn in ("x", "Intel(R) Core(TM) i7-8550U CPU @ 1.80GHz", "Intel(R) Xeon(R) CPU           E5-2670 0 @ 2.60GHz", " lead and trail  "):
         m.append(("proc", f"proc={pn[:5]}" if len(pn) < 45 else f"proc={pn[:5]}..{len(pn)}chars", lambda s, pn=pn: s.__setitem__("proc", pn)))
+    for pn in ("Intel\u00ae Core\u2122 i7-8550U", "Prozessor gr\u00f6\u00dfer \u00b5-Architektur", "\u4e2d\u6587 CPU"):
+        m.append(("proc", f"proc=non-ascii:{len(pn)}:{ord(pn[-9]) if len(pn) > 9 else 0}", lambda s, pn=pn: s.__setitem__("proc", pn)))
     m.append(("relabel", "planning-problem-ids-assigned-after-construction", lambda s: s.__setitem__("relabel", True)))
+    m.append(("retraj", "trajectory-assigned-after-construction(other-kind-first)", lambda s: [p_.__setitem__("retraj", True) for p_ in s["pps"]] and None))
     m.append(("date", "date=None", lambda s: s.__setitem__("date", None)))
     m.append(("date", "date=microseconds", lambda s: s.__setitem__("date", [2019, 12, 31, 23, 59, 59, 999999])))
     m.append(("date", "date=midnight", lambda s: s.__setitem__("date", [2020, 2, 29, 0, 0, 0, 0])))
@@ -171,6 +175,21 @@ def check(spec, res, labels=()):
         res.violation(f"C14|{kinds[0] if len(kinds) == 1 else 'coop'}|read|raises:{type(e).__name__}:"
                       f"{re.sub(r'[^A-Za-z0-9_.:]+', '_', str(e))[:30]}", f"{labels}: {e!r}", case)
         return
+    # the file entry points (write_to_file / open) carry the same document as the string entry points (dump / fromstring)
+    import tempfile, shutil
+    dd = tempfile.mkdtemp(prefix="c14_")
+    try:
+        CommonRoadSolutionWriter(sol).write_to_file(output_path=dd, filename="s.xml", overwrite=True)
+        fback = CommonRoadSolutionReader.open(os.path.join(dd, "s.xml"))
+        res.transitions += 2
+        if fback.processor_name != back.processor_name:
+            res.violation("C14|file-entry-points|processor_name|differs-from-string-entry-points", f"{back.processor_name!r} -> {fback.processor_name!r}", case)
+        elif CommonRoadSolutionWriter(fback).dump() != CommonRoadSolutionWriter(back).dump():
+            res.violation("C14|file-entry-points|document|differs-from-string-entry-points", f"{labels}", case)
+    except Exception as e:
+        res.violation(f"C14|file-entry-points|raises:{type(e).__name__}", f"{labels}: {e!r}", case)
+    finally:
+        shutil.rmtree(dd, ignore_errors=True)
     if back.benchmark_id != sol.benchmark_id:
         res.violation("C14|benchmark_id|value-changed", f"{sol.benchmark_id} -> {back.benchmark_id}", case)
     if back.planning_problem_ids != [p["id"] for p in spec["pps"]]:
